@@ -50,6 +50,9 @@ type Arg struct {
 	// Verb is the printf verb used for this argument ("" = the default:
 	// %s for strings, %d for integers, %v for errors).
 	Verb string
+	// Front: the verb goes before the literal text instead of after it.
+	// Glue: no separator between this verb and what precedes it.
+	Front, Glue bool
 }
 
 // Tag is one context tag.
@@ -244,6 +247,12 @@ func (n *Node) Expr() string {
 			item(fmt.Sprintf("%q", s.V))
 		}
 		for _, a := range n.A {
+			if a.Front {
+				a.Verb = "front:" + a.Verb
+			}
+			if a.Glue {
+				a.Verb = "glued:" + a.Verb
+			}
 			switch a.Kind {
 			case ArgUnsafeStr:
 				item(fmt.Sprintf("%s%q", a.Verb, a.S.V))
